@@ -5,6 +5,7 @@ package cluster
 
 import (
 	"encoding/json"
+	"errors"
 	"fmt"
 	"os"
 	"runtime/debug"
@@ -113,6 +114,7 @@ type SNode struct {
 	crashCommit       int
 	StartCrashAt      int // >0: the next start of this node stops right before its k-th Badger commit (a stop during start-up)
 	failWriteSnapshot int
+	failCalls         map[string]int // Store call name -> how many upcoming calls return an injected I/O error
 	wakeQueued        bool
 	Restarts          int
 	Panics            int
@@ -457,6 +459,7 @@ func (c *Cluster) stopNode(n *SNode) {
 	n.Node, n.Store, n.W, n.Cache = nil, nil, nil, nil
 	n.crashOrdinal = 0
 	n.crashCommit = 0
+	n.failCalls = nil
 }
 
 // Crash stops a node losing all volatile state; the durable directory stays.
@@ -516,11 +519,22 @@ func (c *Cluster) CrashAtCommit(n *SNode, k int) {
 	n.crashCommit = n.CommitOrdinal + k
 }
 
+// FailStoreCall makes the next `count` calls of the named round-transition
+// write (StartNewRound, UpdateEmptyHeadRound) on node n return an I/O error
+// without touching the store (a failing disk).
+func (c *Cluster) FailStoreCall(n *SNode, name string, count int) {
+	if n.failCalls == nil {
+		n.failCalls = map[string]int{}
+	}
+	n.failCalls[name] += count
+}
+
 // DisarmCrashes cancels armed in-call crashes (used when faults stop).
 func (c *Cluster) DisarmCrashes() {
 	for _, n := range c.Nodes {
 		n.crashOrdinal = 0
 		n.crashCommit = 0
+		n.failCalls = nil
 	}
 }
 
@@ -571,6 +585,14 @@ func (c *Cluster) handlePanic(n *SNode, kind string, r any, stack string) {
 	msg := fmt.Sprint(r)
 	c.Trace.Logf(c.Q.Now, "panic n%d %s %s", n.Idx, kind, firstLine(msg))
 	handled := false
+	if err, ok := r.(error); ok {
+		var ie *injectedError
+		if errors.As(err, &ie) {
+			// the node stops itself on a storage error it cannot handle: fail-stop, the operator restarts it
+			handled = true
+			c.count("storeerr.fail_stop")
+		}
+	}
 	for _, m := range c.Monitors {
 		if m.OnPanic(n, kind, r, stack) {
 			handled = true
